@@ -1,6 +1,6 @@
 SPECIFICATION Spec
 CONSTANTS Insts = {1, 2}
-NB = 11
+NB = 12
 MaxHist = 5
 D1_PredsClassLevel = FALSE
 D2_NoResetOnFailure = TRUE
